@@ -67,6 +67,15 @@ CLOSURE_STATE = {
 }
 
 
+def _element_deletion(fa, kind: str, txt: str):
+    """`<table>[name].pop(index, ...)` inside series_computation's deletion callback: removal of a recomputable element from a series
+    of one of the series tables (whether deleting is safe is decided by E9.deletion and E3/T2b, not here).  Recognised by its shape
+    -- pop on an ELEMENT of a table -- not by how the table was built."""
+    if (fa.mod, fa.q) == ("algorithm_parsing", "series_computation.del_") and kind == "method .pop()" and txt.endswith("]") and "[" in txt:
+        return "deletion of recomputable intermediate terms via BlockSeries.pop on an element of a series table"
+    return None
+
+
 def captured_binding(func, name: str) -> str:
     """How the nearest enclosing function binds `name`: '<parameter>', the text of its single assignment, or '<other>'."""
     from .resolve import rtext
@@ -526,6 +535,9 @@ def rule_no_inplace_mutation(rep: Report, repo: Repo, modules=None):
             if base is not None and (fa.mod, fa.q, captured_binding(fa.func, base), kind) in CLOSURE_STATE:
                 rep.ok(RULE, inst + " (listed closure state)", CLOSURE_STATE[(fa.mod, fa.q, captured_binding(fa.func, base), kind)], where)
                 continue
+            if base is not None and _element_deletion(fa, kind, txt):
+                rep.ok(RULE, inst + " (listed closure state)", _element_deletion(fa, kind, txt), where)
+                continue
             if st == FRESH:
                 rep.ok(RULE, inst + " mutates a value created in this function", "target is FRESH on every path", where)
                 continue
@@ -569,12 +581,16 @@ def rule_no_inplace_mutation(rep: Report, repo: Repo, modules=None):
     n_calls = 0
     propagated, extra_summaries = set(), {}
 
+    site_count, via = {}, {}
+
     def check_sites(mod, fname, plist):
         nonlocal n_calls
+        site_count.setdefault((mod, fname), 0)
         for caller, call, env in an.calls:
             cn = call_name(call) or ""
             if not (cn == fname or (cn.endswith("." + fname) and cn.rsplit(".", 1)[0] in MODULE_ALIASES)):
                 continue
+            site_count[(mod, fname)] += 1
             for idx, pname in plist:
                 arg = None
                 callee = [f for f in an.by_name.get(fname, []) if f.mod == mod]
@@ -596,6 +612,7 @@ def rule_no_inplace_mutation(rep: Report, repo: Repo, modules=None):
                     if own and (caller.mod, caller.func.name) not in propagated:
                         # the caller hands its own parameter on: it mutates that parameter itself, and ITS call sites are what matters
                         propagated.add((caller.mod, caller.func.name))
+                        via.setdefault((caller.mod, caller.func.name), f"{caller.q} passes `{norm(arg)[:40]}` to {fname} ({repo.loc(caller.mod, call)})")
                         extra_summaries.setdefault((caller.mod, caller.func.name), set()).update(
                             (caller.params.index(o_), o_) for o_ in org)
                         rep.ok(RULE, inst, f"the argument is the caller's own parameter `{sorted(org)[0]}`: {caller.q} is treated as mutating it "
@@ -612,6 +629,7 @@ def rule_no_inplace_mutation(rep: Report, repo: Repo, modules=None):
                         idx_e = [a_.arg for a_ in encl.args.args].index(ab)
                         if (caller.mod, encl.name, ab) not in propagated:
                             propagated.add((caller.mod, encl.name, ab))
+                            via.setdefault((caller.mod, encl.name), f"{caller.q} passes `{norm(arg)[:40]}` to {fname} ({repo.loc(caller.mod, call)})")
                             extra_summaries.setdefault((caller.mod, encl.name), set()).add((idx_e, ab))
                         rep.ok(RULE, inst, f"`{ab}` is a parameter of the enclosing function {encl.name}: {encl.name} is treated as mutating it "
                                            "(its call sites are checked in turn)", repo.loc(caller.mod, call))
@@ -624,13 +642,42 @@ def rule_no_inplace_mutation(rep: Report, repo: Repo, modules=None):
 
     work = sorted(summaries.items())
     rounds = 0
-    while work and rounds < 4:
+    all_summaries = {}
+    while work and rounds < 6:
         rounds += 1
         extra_summaries = {}
         for (mod_, fname_), plist_ in work:
+            all_summaries.setdefault((mod_, fname_), set()).update(plist_)
             check_sites(mod_, fname_, plist_)
         work = sorted(extra_summaries.items())
+    if work:
+        raise AnalysisError(RULE, "parameter-mutation summaries did not settle in 6 rounds of call-site propagation")
     rep.count("E4.param_mutation_call_sites", n_calls)
+    # where the chain of callers ends, the argument is the user's: an exported function, or a module-level function that
+    # nothing inside the package calls, must not (itself or through what it calls) write into its argument
+    exported = _exported_names(repo)
+    for (mod_, fname_), plist_ in sorted(all_summaries.items()):
+        fas = [f for f in an.by_name.get(fname_, []) if f.mod == mod_ and "." not in f.q]
+        if not fas:
+            continue  # closures and methods: see the callback rule below
+        if fname_ in exported or (site_count.get((mod_, fname_), 0) == 0 and not fname_.startswith("_")):
+            names = ", ".join(sorted(n_ for _i, n_ in plist_))
+            why = "exported by the package" if fname_ in exported else "not called anywhere inside the package, hence only from outside"
+            chain, cur, seen_ = [], (mod_, fname_), set()
+            while cur in via and cur not in seen_:
+                seen_.add(cur)
+                chain.append(via[cur])
+                nxt = via[cur].split(" to ")[-1].split(" (")[0]
+                cur = next(((m2, f2) for (m2, f2) in all_summaries if f2 == nxt), None)
+            path = ("; ".join(chain) + "; " if chain else "") + "the write: " + ", ".join(
+                f"`{txt}` ({repo.loc(fa_.mod, node)})" for fa_ in an.funcs for node, txt, base, _st, _k in fa_.sinks
+                if (fa_.mod, fa_.func.name) in all_summaries and base in fa_.params and (fa_.mod, fa_.func.name) in summaries
+                and (fa_.mod, fa_.func.name) == (cur if cur else (mod_, fname_)))[:300]
+            rep.fail(RULE, f"{mod_}::{fname_} writes (itself or through the functions it hands it to) into its argument `{names}`",
+                     f"{path}. {fname_} is {why}: the argument is the caller's own data, which C10 requires to be left unmodified "
+                     "(copy before the in-place update)", repo.loc(mod_, fas[0].func))
+        else:
+            rep.ok(RULE, f"{mod_}::{fname_} mutates its argument and is only called inside the package ({site_count.get((mod_, fname_), 0)} sites, checked above)", "")
     # a function whose callers are outside the package must not write into its arguments at all: the slots of a scipy
     # LinearOperator (called by scipy with the user's operand, or with the operand of the other term of a composite) and the
     # closures the package hands out or installs as callbacks (called by generated code with cached series elements)
@@ -643,7 +690,10 @@ def rule_no_inplace_mutation(rep: Report, repo: Repo, modules=None):
             continue
         cls = getattr(fa.func, "_parent", None)
         is_slot = isinstance(cls, ast.ClassDef) and any(norm(b).split(".")[-1] == "LinearOperator" for b in cls.bases)
-        has_site = any((call_name(call) or "").split(".")[-1] == fa.func.name for _c, call, _e in an.calls)
+        module_level = "." not in fa.q and isinstance(getattr(fa.func, "_parent", None), ast.Module)
+        has_site = any((call_name(call) or "") == fa.func.name or ((call_name(call) or "").endswith("." + fa.func.name) and
+                       ((call_name(call) or "").rsplit(".", 1)[0] in MODULE_ALIASES or not module_level))
+                       for _c, call, _e in an.calls)
         if is_slot and not fa.func.name.startswith("__"):
             node, txt, base = mutated[0]
             rep.fail(RULE, f"{fa.mod}::{fa.q} writes into its operand `{base}` (`{txt}`)",
@@ -654,9 +704,36 @@ def rule_no_inplace_mutation(rep: Report, repo: Repo, modules=None):
             node, txt, base = mutated[0]
             rep.fail(RULE, f"{fa.mod}::{fa.q} writes into its argument `{base}` (`{txt}`) and is never called inside the package",
                      "a closure handed out as a callback receives values its caller still owns (cached series elements, user arrays)", repo.loc(fa.mod, node))
+        elif not is_slot and not has_site and "." not in fa.q and isinstance(getattr(fa.func, "_parent", None), ast.Module):
+            # a module-level function nobody calls by name but that is used as a VALUE (put into the scope of the generated code,
+            # stored in a table, passed on): its callers are not in the analysed source, they own what they pass
+            uses = [n for t_ in repo.trees.values() for n in ast.walk(t_) if isinstance(n, ast.Name) and n.id == fa.func.name
+                    and isinstance(n.ctx, ast.Load) and not (isinstance(getattr(n, "_parent", None), ast.Call) and n._parent.func is n)]
+            if uses:
+                node, txt, base = mutated[0]
+                rep.fail(RULE, f"{fa.mod}::{fa.q} writes into its argument `{base}` (`{txt}`) and is only used as a value (`{norm(uses[0]._parent)[:60]}`), never called by name",
+                         "a function handed to generated code or stored as a callback receives values its caller still owns (the running "
+                         "result of an eval may be a stored series element): it must not update its arguments in place", repo.loc(fa.mod, node))
     # load-bearing copies
     if modules is None:
         _load_bearing(rep, repo)
+
+
+def _exported_names(repo: Repo) -> set:
+    """Names listed in the `__all__` of the package itself: the entry points whose caller C10 speaks about (the developer-facing
+    helpers exported by single modules, `series_computation(series=...)` and `apply_mask_to_operator(mask=...)`, extend
+    their argument by design and block_diagonalize hands them private containers, which the call-site check establishes)."""
+    out = set()
+    if "__init__" not in repo.all_trees():
+        raise AnalysisError(RULE, "pymablock/__init__.py not found")
+    for tree in (repo.all_trees()["__init__"],):
+        for n in tree.body:
+            if isinstance(n, ast.Assign) and any(isinstance(t, ast.Name) and t.id == "__all__" for t in n.targets) \
+                    and isinstance(n.value, (ast.List, ast.Tuple)):
+                out.update(e.value for e in n.value.elts if isinstance(e, ast.Constant) and isinstance(e.value, str))
+    if "block_diagonalize" not in out:
+        raise AnalysisError(RULE, "block_diagonalize is not listed in the package's __all__")
+    return out
 
 
 def _arg_fresh(caller: FuncAnalysis, arg: ast.AST, env, an: Analyser):
@@ -762,6 +839,8 @@ def rule_closure_state(rep: Report, repo: Repo):
             listed = ckey in CLOSURE_STATE
             if listed:
                 rep.ok(R, f"{fa.mod}::{fa.q} writes captured `{base}` ({kind})", CLOSURE_STATE[ckey], repo.loc(fa.mod, node))
+            elif _element_deletion(fa, kind, txt):
+                rep.ok(R, f"{fa.mod}::{fa.q} writes captured `{base}` ({kind})", _element_deletion(fa, kind, txt), repo.loc(fa.mod, node))
             elif (fa.mod, fa.q, txt) in EXEMPT:
                 rep.ok(R, f"{fa.mod}::{fa.q} writes `{txt}` (exempt)", EXEMPT[(fa.mod, fa.q, txt)], repo.loc(fa.mod, node))
             elif kind == "item store" and _is_memo_store(fa.func, base, node):
